@@ -291,6 +291,29 @@ def run(prog: Program) -> Results:
             res.add("R-C16-1", ("main", "case test", "OK not guarded by byte equality"), mainf.loc(okp),
                     "print('OK') is reachable without establishing `<args.file.read()> == parse(<same>).rebuild()` "
                     "(operands must be the unmodified input and the rebuild of its parse)")
+    # Fail is the verdict of exactly two facts: the parse has an error, or the rebuild differs from the input
+    def error_fact(a, truth):
+        return isinstance(a, ast.Attribute) and a.attr == "contains_error" and truth is True and ctx.is_parse_of_input(a.value)
+
+    def unequal_fact(a, truth):
+        if not (isinstance(a, ast.Compare) and len(a.ops) == 1):
+            return False
+        op = a.ops[0]
+        if not ((isinstance(op, ast.Eq) and not truth) or (isinstance(op, ast.NotEq) and truth)):
+            return False
+        l, r = a.left, a.comparators[0]
+        return (ctx.is_exact_input(l) and ctx.is_rebuild_of_parsed_input(r)) or (ctx.is_exact_input(r) and ctx.is_rebuild_of_parsed_input(l))
+
+    e_fail = edges_establishing(error_fact) + edges_establishing(unequal_fact)
+    for fp in fail_prints:
+        node = cfg.containing(fp)
+        r1.instances += 1
+        ok = bool(e_fail) and cfg.all_paths_pass(node, cut_edges=e_fail)
+        r1.ob(ok, {"print": "Fail", "only_when": "contains_error or input != rebuild"})
+        if not ok:
+            res.add("R-C16-1", ("main", "case test", "Fail without a syntax error or a difference"), mainf.loc(fp),
+                    "print('Fail') is reachable although neither `contains_error` of parse(input) is true nor the rebuild differs from the "
+                    "input: inputs such as '' or a comment-only file, which round-trip exactly, are reported as failures")
     ok_nodes = [cfg.containing(p) for p in ok_prints]
     fail_nodes = [cfg.containing(p) for p in fail_prints]
     rets = [n for n in ast.walk(body) if isinstance(n, ast.Return)]
@@ -458,6 +481,18 @@ def run(prog: Program) -> Results:
         if isinstance(c, ast.Call) and isinstance(c.func, ast.Name) and c.func.id == "with_file_argument" and c.args \
                 and isinstance(c.args[0], ast.Name):
             wired.add(c.args[0].id)
+    # the positional arguments reach the library as typed: no type=/choices=/nargs=/action= conversion
+    for c in ast.walk(bp.node):
+        if isinstance(c, ast.Call) and callee(c) == "add_argument" and c.args and isinstance(c.args[0], ast.Constant) \
+                and isinstance(c.args[0].value, str) and not c.args[0].value.startswith("-"):
+            r4.instances += 1
+            conv = [k.arg for k in c.keywords if k.arg in ("type", "choices", "nargs", "action", "default", "const")
+                    and not (k.arg == "type" and norm(k.value) == "str")]
+            r4.ob(not conv, {"positional": c.args[0].value, "conversions": conv})
+            if conv:
+                res.add("R-C16-4", ("build_parser", c.args[0].value, "argument converted before the library sees it"), bp.loc(c),
+                        f"the positional `{c.args[0].value}` is declared with {conv}: argparse hands the library a rewritten string, so the CLI "
+                        f"and a direct library call with the same text can differ (e.g. a re-formatted NPath whose `${{` is escaped twice)")
     for cmd in ("set", "rm", "test"):
         r4.instances += 1
         good = cmd in sub_vars and sub_vars[cmd] in wired
